@@ -500,6 +500,24 @@ func (r *c11Run) clientOp(op *Op) {
 		_ = sch.GetScheduleEntries()
 		_ = sch.GetJobHistory()
 		count("status_polls")
+	case "deleteDataset":
+		if at, _ := op.M["after"].(string); at != "" {
+			// this client acts when a run has reached a given point of its pipeline for the n-th time (or never does)
+			want := int64(intOf(op.M, "hit"))
+			for i := 0; i < 300 && PointHits()[at] < want; i++ {
+				hooks.Point(h.Store.VerifDB(), "harness.wait")
+			}
+			if PointHits()[at] >= want {
+				count("targeted_dataset_deletes")
+			}
+		}
+		if err := h.Dsm.DeleteDataset(op.DS); err == nil {
+			count("datasets_deleted")
+		}
+	case "createDataset":
+		if _, err := h.Dsm.CreateDataset(op.DS, nil); err == nil {
+			count("datasets_created")
+		}
 	case "sleep":
 		time.Sleep(time.Duration(op.N) * time.Millisecond)
 	}
